@@ -21,6 +21,37 @@ add("C01", "exploration",
     "permutation; the operations are data-oblivious, so one injective tensor per (shape,dtype,layout) decides all values of that shape.",
     "Bounds: order<=5, dims<=3 (quick) / <=4 (thorough). Trusted: numpy tobytes/dtype, the loop-level reference in vmc/props/c01.py.")
 
+add("C05", "exploration",
+    "bounded exhaustive enumeration of (shape x constructed spectrum x method x n_eigenvecs x flip options x non_negative) with Eckart-Young / orthonormality / sign certificates",
+    "All matrix shapes up to 5x5 (7x7 thorough) x matrices constructed from known singular triplets (distinct, repeated, zero, rank-1 spectra) "
+    "and integer matrices x every method x every n_eigenvecs from 1 past max(shape) and None x all flip/non-negative options; each result is "
+    "checked with a certificate (shapes, S equals the known spectrum, orthonormality, reconstruction error equals the discarded tail, sign rule, entrywise non-negativity).",
+    "Trusted: the construction U0 diag(s) V0^T from rational Givens rotations (spectrum known without calling an SVD), numpy.linalg.svd for the integer family; "
+    "tolerance ladder 1e-9 / 1e-6 (symeig). Randomized method only where rank+oversampling covers the matrix rank (guard counted).")
+
+add("C17", "model_checking",
+    "explicit-state BFS over operation histories of the real backend managers (subset-construction oracle against a per-thread-stack spec) + stateless exploration of all thread schedules up to a pre-emption bound under a controlled scheduler with a linearizability oracle",
+    "HX: breadth-first exploration of every history of {set/enter/exit/query, global|local, valid|bogus} events by 2-3 real threads on the REAL "
+    "tensorly.backend and tensorly.tenalg managers, deduplicated on a canonical state that contains every data field the managers own; after every "
+    "transition all threads are probed (get_backend, current_backend, a dispatched call) and compared with the set of specification states still "
+    "consistent (trace inclusion). SX: the same operations run in real threads under a sys.settrace baton scheduler; every schedule with <=2 (quick) / <=3 "
+    "(thorough) pre-emptions at line / bytecode granularity is executed and the call/return history checked for linearizability against the spec.",
+    "Bounds: 2-3 threads, 2-3 backends, context nesting <=2, history length <=5 (quick) or to the fixpoint (thorough, nesting 1); stand-in NumPy-derived "
+    "backends replace the uninstallable ones. Entering a context is modelled as two atomic steps (the statement does not promise atomicity against other "
+    "threads' global selections). CPython bytecodes are atomic under the GIL.", engine="SX+TX")
+
+add("C19", "exploration",
+    "bounded exhaustive enumeration of (estimator x sample count x sample shape x target shape x rank x regularisation x seed x iteration cap) with loop-level reference contractions; all sample permutations / shifts for PLSR",
+    "Every configuration of the bounded lattice is fitted with the real estimators; predictions are compared with the explicit contraction of each sample "
+    "with the exposed weight tensor, the weight tensor with the loop-level reconstruction of the exposed factors, vec_W_ with its vectorisation; for CP_PLSR "
+    "transform(train) = scores, unit-norm loadings, invariance under constant shifts of X / Y and equivariance under every sample permutation.",
+    "Bounds: n<=6 samples, sample order<=3 with dims {2,3}, rank<=3. Guards (counted): fits that raise on order-1 samples, ridge collapse, PLSR components beyond the data rank. Tolerances 1e-9/1e-12/1e-8.")
+
+READY = ["C01", "C05", "C17", "C19"]
+for _p in list(CHECKS):
+    if _p not in READY:
+        del CHECKS[_p]
+
 ALL = [f"C{i:02d}" for i in range(1, 21)]
 REASON_PENDING = "check not built yet in this round (planned, see DESIGN.md §4); nothing is claimed for it"
 
